@@ -23,11 +23,11 @@ AS = [
 RULE = ("a set of 0..11 signatures (pools of 1-4 hash sets and 3-4 names, so equal md5 under different names and exact duplicates are frequent; "
         "empty sketches; hashes 0, 2^63-1, 2^63, 2^64-1, max_hash; flat / abundance / num / other scaled / other k / protein) saved to one format "
         "(zip and sqldb and directory in 1-3 create-then-append sessions; .sig/.sig.gz; SBT; LCA), then members, manifest, len and every way of "
-        "reloading (generic, standalone manifest in CSV and in SQLite format, PARTIAL standalone manifests that split an md5 group, path list, directory), for zips also the manifest rebuilt from the members (sig manifest); the command line in-process (sourmash.__main__.main): sig cat (2-4 input collections of mixed kinds, -o to .sig/.sig.gz/.zip/dir/.sqldb, --unique, --from-file), sig split, sig collect (-F csv/sql, --abspath/--relpath/default, collections in nested directories, manifest loaded by absolute path from another working directory), sig manifest (rebuild / --no-rebuild-manifest, csv/sql), sig fileinfo --json-out; plus loader-choice probes on real files of 15 kinds and convert_hash round trips. "
+        "reloading (generic, standalone manifest in CSV and in SQLite format, PARTIAL standalone manifests that split an md5 group, path list, directory), for zips also the manifest rebuilt from the members (sig manifest); the command line in-process (sourmash.__main__.main): sig cat (2-4 input collections of mixed kinds, -o to .sig/.sig.gz/.zip/dir/.sqldb, --unique, --from-file), sig split, sig collect (-F csv/sql, --abspath/--relpath/default, collections in nested directories, manifest loaded by absolute path from another working directory), sig manifest (rebuild / --no-rebuild-manifest, csv/sql), sig fileinfo --json-out; peripheral routes (signatures derived by downsample/flatten/rename through three spellings before saving, SaveSignaturesToLocation(None), `-` stdout + stdin loader, SBT on FSStorage (.sbt.json), LCA in SQLite format, manifest-less zip reading, nested directory trees with junk/--force, add() after close(), SqliteIndex.create(append).insert); every save/load goes through alternating equivalent spellings (context manager / open+close / add_many / LinearIndex.save / save_signatures_to_json; five generic loader entry points and the classes' own loaders), after every generic load the adapter asserts that all views agree (md5 of signature vs sketch, `in manifest`, signatures_with_location, locations exist, LazyLinearIndex, bool, row attributes of every returned signature, len vs rows, manifest algebra and CSV round trip, index unchanged by manifest.write_to_csv) and re-verifies every earlier index object and returned signature (VIEW:/HIST: observations); plus loader-choice probes on real files of 15 kinds and convert_hash round trips. "
         "non-trivial = >= 2 signatures defined and a reload that returned something (or >= 2 loader probes); distinct = distinct op lists")
 
 FLAVOURS = ["zip", "zipappend", "sqldb", "dir", "sigfile", "sbt", "lca", "kind", "zip", "zipappend", "sqlseed", "sbt", "lca", "dir",
-            "cli_cat", "cli_collect", "cli_misc", "partial", "cli_cat", "cli_collect"]
+            "cli_cat", "cli_collect", "cli_misc", "partial", "cli_cat", "cli_collect", "periph", "periph", "periph"]
 
 if __name__ == "__main__":
     n_quick = int(os.environ.get("VERIF_C10_N", "5000"))
